@@ -277,6 +277,29 @@ func (st *ccState) oracleRouting(v *vio) {
 		st.checkTrySequences(v, c, timing)
 	}
 	st.oracleRefusal(v)
+	st.checkStillReading(v)
+}
+
+// checkStillReading is the "dropped without disturbing any call" clause seen from
+// the socket: while the client is open and no read has failed, every datagram put
+// into its socket is read. Judged only where instants are exact (computation takes no
+// virtual time, so a loop that is alive has read everything delivered at earlier instants).
+func (st *ccState) checkStillReading(v *vio) {
+	cfg := st.cfg
+	if cfg.stall || cfg.slowWrite || st.readErrSeq != 0 || st.gatedRun() || len(st.closeCalls) == 0 {
+		return
+	}
+	tClose := st.closeCalls[0].invT
+	due := 0
+	for _, d := range st.delivered {
+		if d.t < tClose {
+			due++
+		}
+	}
+	if len(st.rx) < due {
+		d := st.delivered[len(st.rx)]
+		v.add("R6-stopped-reading", "%d datagram(s) were put into the client's socket strictly before it was closed at t=%v, but only %d were ever read: the receive loop stopped reading although no read had failed (first unread: %q delivered at t=%v)", due, tClose, len(st.rx), d.tag, d.t)
+	}
 }
 
 func (st *ccState) closedBefore(seq int) bool {
@@ -555,6 +578,7 @@ func (st *ccState) oracleLiveness(v *vio) {
 	}
 	// T5 is R5-spurious-refusal (oracleRefusal): a returned call's id is reusable at once.
 	st.oracleRefusal(v)
+	st.checkStillReading(v)
 	// T6 Close
 	for i := range st.closeCalls {
 		c := &st.closeCalls[i]
